@@ -151,7 +151,18 @@ def parse1Checked (e : Env) (sub : Bool) (startIndex : Nat) : Nat → Bytes → 
 
 /-- the `while let Some(v) = try_parse_Ndigits(..)` loops of `Model.ParseInt` run on `as_slice()` of a contiguous
 iterator (`peek_u64`/`peek_u32` need `IS_CONTIGUOUS`); the cursor they return is written back.
-`try_parse_8digits`' `debug_assert!`s: radix ≤ 10 and `IS_CONTIGUOUS`. -/
+`try_parse_8digits`' `debug_assert!`s: radix ≤ 10 and `IS_CONTIGUOUS`.
+
+Digit count (repo fix 7e8a135): with the `format` feature every block stepped over is followed by 8 / 4 calls of
+`iter.increment_count()`, i.e. `integer_count += cursor' - cursor`; written back into `ic` below. In the INTEGER parser
+this is unobservable: the fast paths run only for `Iter::IS_CONTIGUOUS` (`can_try_parse_multidigits`), and a contiguous
+component iterator's `current_count()` is the cursor (repo fix 12a2453, `Bytes.iterCount`), which is what every reader
+of the count in `algorithm!` goes through (`skip_zeros`, `fmt_invalid_digit!`, the leading-zero block, the final
+`$into_ok!`; the `peek_*!` predicates read it for non-contiguous iterators only); `Bytes::current_count` (the sum of the
+three counts) is never called, the `Bytes` object is local to `algorithm!`, and the `take_n` sub-buffer (`from_parts`:
+counts 0) is dropped after its loop. Proved: `Proof.PIF.iterCount_ic_irrelevant`, and the characterisations of
+`Proof/ParseIntFormatSimple.lean` hold for every value of `ic`. (The float parser reads the count of the non-contiguous
+`Bytes`; its model `Model.ParseNumber` counts the blocks separately.) -/
 def multiLoop (e : Env) (sub : Bool) (b : Bytes) (value : Nat) : Flow (Bytes × Nat) :=
   let useMulti := e.contig && canMulti e.c.feats e.radix && !e.noMulti
   let wide := useMulti && decide (e.t.bits ≥ 64) && decide (b.bufferLength ≥ 8)
@@ -162,7 +173,8 @@ def multiLoop (e : Env) (sub : Bool) (b : Bytes) (value : Nat) : Flow (Bytes × 
     else
       match (if wide then loop8 e.t e.radix sub b.asSlice value b.index else loop4 e.t e.radix sub b.asSlice value b.index) with
       | .error _ => .error (.error (.fault "unchecked"))
-      | .ok (_, value, cursor) => .ok ({ b with index := cursor }, value)
+      | .ok (_, value, cursor) =>
+        .ok ({ b with index := cursor, ic := if e.c.feats.format then b.ic + (cursor - b.index) else b.ic }, value)
   else .ok (b, value)
 
 /-- `parse_digits_unchecked!` -/
